@@ -193,9 +193,9 @@ def data_config(cfg):
 
 
 def history_order(n):
-    """The read history every framework is driven through: each index is fetched three times, with
-    other indices in between whenever there are any (forward pass, backward pass, forward pass)."""
-    return list(range(n)) + list(range(n - 1, -1, -1)) + list(range(n))
+    """The read history every framework is driven through: two forward passes, so each index is
+    fetched twice with every other index fetched in between (three times when it is the only one)."""
+    return list(range(n)) * 2 if n > 1 else [0, 0, 0][: 3 * n]
 
 
 def read_history(ds, n):
@@ -707,8 +707,18 @@ def run_case(chk, spec, cfg, alias, tmp, tag, do_model=True):
     case = {"spec": spec, "cfg": cfg}
     all_fails = []
     # ---- how many samples each labelled frame gives (model: sampleCount; property: the same everywhere)
+    # one driver process per case: the `count` lines and the `sample` lines travel together
+    idx = sample_index(spec, mt)
     clines = [f"count {fw} {mt} {insts_line(fr['insts'])}" for fr in spec["frames"] for fw in FWS]
-    cmodel = iter(run_driver("C18.lean", clines)) if do_model else None
+    lines, keys = [], []
+    for i, (fr, k) in enumerate(idx):
+        for fw in FWS:
+            if do_model:
+                lines.append(model_line(fw, spec, cfg, fr, k, max_hw, max_inst, alias))
+                keys.append((i, fw))
+    dout = run_driver("C18.lean", clines + lines) if do_model else []
+    cmodel = iter(dout[:len(clines)]) if do_model else None
+    models = dict(zip(keys, dout[len(clines):]))
     for fi, fr in enumerate(spec["frames"]):
         for fw in FWS:
             got = counts[fw][fi]
@@ -723,11 +733,10 @@ def run_case(chk, spec, cfg, alias, tmp, tag, do_model=True):
             chk.fail(f"C18 fails ({mt}): {msg}", {**case, "frame": fi}, {f: counts[f][fi] for f in FWS},
                      signatures(spec, cfg, max_hw, max_inst, fr))
         chk.tag("frame_counts_checked")
-    idx = sample_index(spec, mt)
     hist = history_order(len(idx))
     for fw in FWS:
         if len(fwout[fw]) != len(hist):
-            n_fw = {f: len(fwout[f]) // 3 for f in FWS}
+            n_fw = {f: len({i for i, _ in fwout[f]}) for f in FWS}
             chk.disagree("number of samples per framework", case, n_fw, len(idx))
             chk.fail(f"framework {fw} yields {n_fw[fw]} samples, expected {len(idx)}", case,
                      n_fw, signatures(spec, cfg, max_hw, max_inst))
@@ -735,13 +744,6 @@ def run_case(chk, spec, cfg, alias, tmp, tag, do_model=True):
     in_region = covered(cfg)
     exact = eff_is_exact(spec, cfg, max_hw)
     mag = 2.0 * max(target_hw(cfg, max_hw)) * max(1.0, float(cfg["scale"]))
-    lines, keys = [], []
-    for i, (fr, k) in enumerate(idx):
-        for fw in FWS:
-            if do_model:
-                lines.append(model_line(fw, spec, cfg, fr, k, max_hw, max_inst, alias))
-                keys.append((i, fw))
-    models = dict(zip(keys, run_driver("C18.lean", lines))) if lines else {}
     first_cs = {}
     for pos, i in enumerate(hist):
         fr, k = idx[i]
@@ -847,30 +849,102 @@ def pts_line(pts):
     return " ".join([str(len(pts))] + ["nan nan" if p is None else f"{rat(float(p[0]))} {rat(float(p[1]))}" for p in pts])
 
 
+# Boundary modes for the keypoints fed to a (DataPipe block, function) pair — read off the tests BOTH
+# twins make on their inputs:
+#   generate_pafs / PartAffinityFieldsGenerator: `(inst > 0) & (inst < (xv[-1], yv[-1]))`, all over x,y,
+#     any over nodes  → x = 0 / y = 0 exactly, x = xv[-1] exactly, the last partial stride band
+#     [xv[-1], W-1) at the right and [yv[-1], H-1) at the bottom, everything outside, NaN endpoints;
+#   generate_confmaps / ConfidenceMapGenerator and the multi variants: grid `arange(0, H, stride)` that
+#     stops short of H, NaN → 0, `[:num_instances]` slicing vs no slicing (padding rows, num = rows);
+#   generate_centroids / InstanceCentroidFinder: anchor None, anchor NaN (bbox fallback), every anchor
+#     present (`missing_anchors.any()` false), all-NaN rows, one visible node;
+#   generate_crops / InstanceCropper: centroid on / beyond the image border, odd crop sizes, break at
+#     `num_instances`, zero instances;
+#   apply_resizer / Resizer: scale == 1.0 exactly (no-op) vs != 1;  apply_pad_to_stride / PadToStride:
+#     max_stride 1 (no-op), a side already divisible (pad 0 on it);  Normalizer: uint8 vs already-float
+#     input, 1 vs 3 channels × is_rgb.
+BLOCK_MODES = ["interior", "band_right", "band_bottom", "band_one_node", "on_zero", "on_last_grid",
+               "outside", "nan_mix", "no_instances", "band_right"]
+# (H, W, stride) with a non-empty last partial band on both axes: (W-1) - xv[-1] >= 1
+BLOCK_GEOM = [(40, 56, 4), (50, 70, 4), (64, 64, 8), (47, 62, 4), (40, 56, 2)]
+
+
+def last_grid(size, stride):
+    return ((size - 1) // stride) * stride
+
+
+def gen_boundary(rng, h, w, n_nodes, stride, mode):
+    """One instance for the given boundary mode (coordinates on the k/8 lattice)."""
+    xl, yl = last_grid(w, stride), last_grid(h, stride)
+    inx = lambda: rng.randrange(8, (xl - 1) * 8) / 8       # strictly inside (0, xv[-1])
+    iny = lambda: rng.randrange(8, (yl - 1) * 8) / 8
+    bandx = lambda: xl + rng.randrange(1, max(2, int((w - 1 - xl) * 8))) / 8    # in (xv[-1], W-1)
+    bandy = lambda: yl + rng.randrange(1, max(2, int((h - 1 - yl) * 8))) / 8
+    if mode == "band_right":
+        return [(bandx(), iny()) for _ in range(n_nodes)]
+    if mode == "band_bottom":
+        return [(inx(), bandy()) for _ in range(n_nodes)]
+    if mode == "band_one_node":
+        far = [(w + 3.5, iny()), (-2.25, iny()), None]
+        pts = [rng.choice(far) for _ in range(n_nodes)]
+        pts[rng.randrange(n_nodes)] = rng.choice([(bandx(), iny()), (inx(), bandy()), (bandx(), bandy())])
+        return pts
+    if mode == "on_zero":
+        pts = [rng.choice([(0.0, iny()), (inx(), 0.0), (0.0, 0.0)]) for _ in range(n_nodes)]
+        return pts
+    if mode == "on_last_grid":
+        return [rng.choice([(float(xl), iny()), (inx(), float(yl)), (float(xl), float(yl))]) for _ in range(n_nodes)]
+    if mode == "outside":
+        return [rng.choice([(w + 1.5, iny()), (inx(), h + 2.0), (-1.0, -3.5), (float(w - 1), float(h - 1))])
+                for _ in range(n_nodes)]
+    if mode == "nan_mix":
+        pts = [None] * n_nodes
+        pts[rng.randrange(n_nodes)] = (inx(), iny())
+        return pts
+    return [(inx(), iny()) for _ in range(n_nodes)]
+
+
 def check_blocks(chk, alias, n):
-    """Each legacy block vs (a) its functional twin, directly (oracle) and (b) the model's `dp…`."""
+    """Each legacy block vs (a) its functional twin, directly (oracle) and (b) the model's `dp…`.
+    Iteration j uses boundary mode BLOCK_MODES[j % 10] and geometry BLOCK_GEOM[j % 5], so a quick run
+    (n = 10) visits every mode on every seed."""
     np, torch = E["np"], E["torch"]
     rng = chk.rng
     nz, rs, ic, icr, cm, em = E["nz"], E["rs"], E["ic"], E["icr"], E["cm"], E["em"]
     jobs = []   # (name, driver line, checker(model fields) -> list of diffs, case)
-    for _ in range(n):
-        h, w, c = rng.choice([(40, 56), (64, 64), (50, 70)]), None, rng.choice([1, 3])
-        h, w = h
+    for j in range(n):
+        mode = BLOCK_MODES[j % len(BLOCK_MODES)]
+        h, w, bstride = BLOCK_GEOM[j % len(BLOCK_GEOM)] if j < 2 * len(BLOCK_MODES) else rng.choice(BLOCK_GEOM)
+        c = rng.choice([1, 3])
         raw = make_image(rng.randrange(10 ** 6), h, w, c)
         img_u8 = torch.from_numpy(np.transpose(raw, (2, 0, 1))[None].copy())
         img_f = img_u8.to(torch.float32) / 255.0
         n_nodes = rng.choice([2, 3])
-        n_inst = rng.choice([1, 2, 3])
-        insts = [gen_points(rng, h, w, n_nodes, rng.choice([0.0, 0.3])) for _ in range(n_inst)]
-        n_pad = rng.choice([0, 0, 1, 2])
+        if mode == "no_instances":
+            n_inst, insts = 0, []
+        else:
+            n_inst = rng.choice([1, 2, 3])
+            insts = [gen_boundary(rng, h, w, n_nodes, bstride, mode)]
+            insts += [gen_boundary(rng, h, w, n_nodes, bstride, rng.choice([mode, "interior", "nan_mix"]))
+                      for _ in range(n_inst - 1)]
+            rng.shuffle(insts)
+        n_pad = rng.choice([0, 0, 1, 2]) if n_inst else rng.choice([0, 2])
         padded = insts + [[None] * n_nodes] * n_pad
-        inst_t = insts_tensor(padded).unsqueeze(0)
+        inst_t = insts_tensor(padded).unsqueeze(0) if padded else torch.zeros((1, 0, n_nodes, 2))
+        chk.tag(f"block_mode:{mode}")
         edges = [(i, i + 1) for i in range(n_nodes - 1)]
         base_case = {"h": h, "w": w, "c": c, "insts": padded, "num": n_inst}
 
         # 1 Normalizer
-        is_rgb = rng.random() < 0.5
+        is_rgb = (j // 2) % 2 == 0
         blk = list(nz.Normalizer([{"image": img_u8.clone()}], is_rgb=is_rgb))[0]["image"]
+        # already-float input: both twins must leave the values alone
+        blk_f = list(nz.Normalizer([{"image": img_f.clone()}], is_rgb=is_rgb))[0]["image"]
+        x_f = nz.apply_normalization(img_f.clone())
+        fn_f = nz.convert_to_rgb(x_f) if is_rgb else nz.convert_to_grayscale(x_f)
+        if not teq(blk_f, fn_f) or not teq(blk_f, blk):
+            chk.fail("C18 fails: Normalizer / apply_normalization differ on an already-normalised float image",
+                     {"h": h, "w": w, "c": c, "is_rgb": is_rgb}, "float input")
         x = nz.apply_normalization(img_u8.clone())
         fn = nz.convert_to_rgb(x) if is_rgb else nz.convert_to_grayscale(x)
         jobs.append(("Normalizer", f"dp normalizer {int(is_rgb)} {h} {w} {c}", blk, fn,
@@ -879,7 +953,7 @@ def check_blocks(chk, alias, n):
                      {**base_case, "is_rgb": is_rgb}))
 
         # 2 Resizer
-        s = rng.choice([1.0, 0.5, 0.75, 1.5, 2.0])
+        s = [1.0, 0.5, 0.75, 1.5, 2.0][j % 5]
         ex = list(rs.Resizer([{"image": img_f.clone(), "instances": inst_t.clone()}], scale=s))[0]
         fi, fp = rs.apply_resizer(img_f.clone(), inst_t.clone(), scale=s)
 
@@ -897,7 +971,7 @@ def check_blocks(chk, alias, n):
                      (ex["image"], ex["instances"]), (fi, fp), ck_resizer, {**base_case, "scale": s}))
 
         # 3 PadToStride
-        m = rng.choice([1, 2, 8, 16, 32])
+        m = [1, 2, 8, 16, 32, h, 4][j % 7]      # 1: no-op; h: height already divisible
         blk = list(rs.PadToStride([{"image": img_f.clone()}], max_stride=m))[0]["image"]
         fn = rs.apply_pad_to_stride(img_f.clone(), max_stride=m)
         jobs.append(("PadToStride", f"dp pad {m} {h} {w} {c}", blk, fn,
@@ -905,7 +979,7 @@ def check_blocks(chk, alias, n):
                      else ["image"], {**base_case, "max_stride": m}))
 
         # 4 InstanceCentroidFinder
-        anchor = rng.choice([None, 0, 1])
+        anchor = [None, 0, 1][j % 3]
         a1, a2 = inst_t.clone(), inst_t.clone()
         blk = list(ic.InstanceCentroidFinder([{"instances": a1}], anchor_ind=anchor))[0]["centroids"]
         fn = ic.generate_centroids(a2, anchor_ind=anchor)
@@ -960,8 +1034,8 @@ def check_blocks(chk, alias, n):
                      blk_cmp, fn_cmp, ck_crop, {**base_case, "crop": (ch, cw)}))
 
         # 6 ConfidenceMapGenerator
-        sg, st = rng.choice([1.5, 2.5]), rng.choice([1, 2, 4])
-        rank4 = rng.random() < 0.5
+        sg, st = rng.choice([1.5, 2.5]), (bstride if j % 3 else 1)
+        rank4 = rng.random() < 0.5 or not padded
         if rank4:
             kp, key, line_i = inst_t.clone(), "instances", insts_line(padded)
         else:
@@ -971,7 +1045,11 @@ def check_blocks(chk, alias, n):
         fn = cm.generate_confmaps(kp.clone(), img_hw=(h, w), sigma=sg, output_stride=st)
 
         def ck_tgt(f, blk=blk):
-            e = close_img(eval_target(parse_target(f["tgt"])), blk, 1e-6)
+            t = parse_target(f["tgt"])
+            if t["kind"] != "confmaps" and not t["animals"]:
+                # no animal at all: the specification cannot carry the node count; the real output must be zero
+                return [] if float(blk.abs().max()) == 0.0 else ["target not zero without animals"]
+            e = close_img(eval_target(t), blk, 1e-6)
             return ["target " + e] if e else []
         jobs.append(("ConfidenceMapGenerator",
                      f"dp confmaps {int(rank4)} {4 if rank4 else 3} {h} {w} {rat(sg)} {st} {line_i}",
@@ -990,7 +1068,7 @@ def check_blocks(chk, alias, n):
                      blk, fn, lambda f, blk=blk: ck_tgt(f, blk), {**base_case, "centroids": cen_mode}))
 
         # 8 PartAffinityFieldsGenerator
-        psg, pst = rng.choice([4.0, 2.0]), rng.choice([2, 4])
+        psg, pst = rng.choice([4.0, 2.0]), bstride
         ei = torch.Tensor(edges)
         blk = list(em.PartAffinityFieldsGenerator([{"image": img_f, "instances": inst_t.clone()}], sigma=psg,
                                                   output_stride=pst, edge_inds=ei, flatten_channels=True))[0]["part_affinity_fields"]
@@ -1142,7 +1220,7 @@ def main(chk: Check):
             n_ex += k
         chk.extra["excluded_region_cases"] = n_ex
         # (4) DataPipe blocks
-        check_blocks(chk, alias, chk.n(6, 60))
+        check_blocks(chk, alias, chk.n(10, 60))
     finally:
         shutil.rmtree(tmp, ignore_errors=True)
 
